@@ -110,6 +110,57 @@ CLAIMED = {
         ref="5 (C07)", technique="CBMC function contracts (DFCC) with ghost-witness postconditions and iteration lemmas"),
 }
 
+NA = {}
+OPT_BASE = ("Options unit: user_input (constructor and all 14 members), base::matches, toggle/option/multi_option {matches, update_value, prepare, check, "
+            "parse_env_value, ...}, both try_parse_as_option instantiations, try_parse_as_toggle, prepare_options, validate_options, check_parser_consistency, "
+            "parse(vector) as prologue / one execution of the token-loop body / epilogue, parse(argc, argv), arguments::get(int)/operator[], the declaration "
+            "functions of group and parser::has_option_with_name/get_all_* and short_name() are extracted from /repo on every run and verified by contract "
+            "over abstract strings (interned text identity, symbolic length to 2^20, first three bytes, position of the first '=', per-letter counts for a "
+            "table of 4 symbolic letters). ")
+OPT_NOTE = (TRUST + " Bounds: K=2 declared entities per kind (loops over the declaration maps are unwound completely with unwinding assertions, so this is a bound on "
+            "the declaration, not on the proof of each function), 4 distinct letters per token, argument vectors of <=3 tokens inside parse(argc, argv); the token "
+            "loop of parse(vector) is NOT bounded: its body is verified once for an arbitrary loop-carried state (induction step), the fold over tokens is the "
+            "paper induction of DESIGN.md 5. Iterator position is fixed to 0 in the step (assumption A-shift: the code uses it, it + 1 and end only). "
+            "std::regex_match with the token pattern, std::string/map/multiset/getline, nitro::env::get are assumed contracts. Three known findings are reported as KNOWN-FINDING.")
+OPT_TECH = "CBMC function contracts (DFCC) on mechanically extracted C; loop body as a function with a by-value reference step function; case-split jobs; second contracts per call site"
+CLAIMED.update({
+    "C01": dict(text=OPT_BASE + "C01: the step contract compares the real loop body with a reference step function written from the property text: on success every token "
+                "is classified (positional verbatim, --, option+value, toggles) and has exactly that effect; a bundle is accepted only if the per-letter counts of declared "
+                "toggles add up to the number of letters; unknown names/letters and an option letter inside a bundle raise the user-input error.",
+                note=OPT_NOTE, ref="5 (C01)", technique=OPT_TECH),
+    "C02": dict(text=OPT_BASE + "C02: each spelling (--name value, --name=value, -s value, -s=value, repeated/bundled letters, inline or after --) is one case of the reference "
+                "step function; the value is the text identity after the FIRST '=' or the next token verbatim; multi-option values and positionals are appended at the end "
+                "(ghost witness index = any index). Typed access (as<T>) is std::stringstream extraction and is not verified.",
+                note=OPT_NOTE + " Byte-for-byte delivery is identity of the abstract text; that std::string::substr copies bytes is assumed.", ref="5 (C02)", technique=OPT_TECH),
+    "C03": dict(text=OPT_BASE + "C03: check() of option, multi_option and toggle is verified against the decision table command line > non-empty environment value > default > "
+                "(optional: absent | required: user-input error); environment values are stored verbatim (multi: the pieces between ';' in order), dirty/provided is set exactly "
+                "for command line and environment; the epilogue contract lifts this to every declared entity and to the provided set.",
+                note=OPT_NOTE, ref="5 (C03)", technique=OPT_TECH),
+    "C04": dict(text=OPT_BASE + "C04: every contract in the chain has the two-sided clause 'raises iff <documented condition>' and 'only EXC_PARSING_ERROR' for user input; developer-error "
+                "guards (name() of a value token etc.) are preconditions that every call site is proved to satisfy, so parser_error cannot escape from parse() of a consistent parser; "
+                "CBMC's pointer/bounds/overflow checks are on for all extracted code (no out-of-bounds read); termination of parse is by the for-loop over the vector (not a CBMC obligation).",
+                note=OPT_NOTE + " 'never crashes or hangs' covers the extracted code only; libstdc++ regex is outside.", ref="5 (C04)", technique=OPT_TECH),
+    "C11": dict(text=OPT_BASE + "C11: toggle::update_value / matches / check / parse_env_value: each long spelling adds one, each occurrence of the letter in a short token adds one (multiset count), "
+                "--no-<name> only for reversible toggles and yields 0, both polarities in either order raise, the 15 truthy and 15 falsy environment words are fixed in the contract "
+                "and every other word raises. Known finding toggle_named_no.", note=OPT_NOTE, ref="5 (C11)", technique=OPT_TECH),
+    "C12": dict(text=OPT_BASE + "C12: the positional branch of the step (value tokens and every token in positional mode are appended verbatim, -- and greedy mode switch the mode, the accepted "
+                "count is enforced before appending), parse(argc, argv) (every word but argv[0], in order), arguments::get(int)/operator[] (index -k is position size-k; anything else "
+                "is out_of_range). Known finding malformed_dash_in_positional_part.", note=OPT_NOTE, ref="5 (C12)", technique=OPT_TECH),
+    "C13": dict(text=OPT_BASE + "C13: group::option/multi_option/toggle preserve 'the name is held by at most one map over all groups and kinds', return the identical object for the same "
+                "name+kind+group, raise the developer error for any other re-declaration, append new objects to order_ exactly once; has_option_with_name is true iff any group holds "
+                "the name in any kind; short_name() accepts exactly one character and never changes a set letter; check_parser_consistency raises iff two declared entities share a letter. "
+                "Known finding parser_move_stale_backref.", note=OPT_NOTE + " G=2 groups (the one declared into and one other); std::map is modelled for the one key being declared.", ref="5 (C13)", technique=OPT_TECH),
+    "C14": dict(text=OPT_BASE + "C14: prepare() of option/multi_option/toggle and prepare_options reset value, list, count and dirty flag of every declared entity; the prologue contract gives "
+                "a start state that does not depend on the entry state (mode false, no positionals, all entities reset) and its frame excludes the declarations; positionals and "
+                "provided are locals of parse(). Hence the result is a function of declaration, vector and environment.", note=OPT_NOTE, ref="5 (C14)", technique=OPT_TECH),
+})
+NA.update({
+    "C15": ("usage()/format()/format_padded() build text through std::ostream/std::stringstream with tellp-based column arithmetic, nitro::format and lang::join; a contract over these needs a "
+            "character-level stream model in which line width and word order are expressible, and CBMC's string reasoning over symbolic-length buffers did not scale in this image (memcpy of 64 symbolic "
+            "bytes: 109 s). Only the listing-order part is proved (C13 job group_*: a new option is appended to order_ exactly once, a re-declaration never adds an entry); "
+            "the stream-independence defect found by inspection was repaired (fix d00e886) and is demonstrated natively in findings/options_defects.cpp. No claim is made for C15."),
+})
+
 NOT_YET = "check not built yet in this round (see DESIGN.md section 9 for the plan); no claim is made"
 
 
@@ -151,8 +202,6 @@ def main():
     json.dump(m, open(os.path.join(HERE, "MANIFEST.json"), "w"), indent=1)
     print("checks:", [c["property_id"] for c in checks], "not_applicable:", len(na))
 
-
-NA = {}
 
 if __name__ == "__main__":
     main()
